@@ -41,13 +41,18 @@ PROPS = {
                 bounds=["proof depth 0..2 quick / 0..4 thorough", "double-finalize composition: depth 0..1 each"], outside=["deeper proofs"], assumptions=COMMON_ASSUME),
     "C03": dict(runs=[oph("^Harness_C03_")],
                 bounds=["proof depth 0..2 quick / 0..4 thorough", "non-standard lengths {0,2} for version, {31,33} for roots/hash/proof item"], outside=["deeper proofs", "collision resistance of sha3 (hash is an uninterpreted function)"], assumptions=COMMON_ASSUME),
+    "C04": dict(runs=[oph("^Harness_C04_"), opc("^Harness_C04_")],
+                bounds=["honest trees of 1..3 (quick) / 1..6 (thorough) leaves, every leaf position, unpaired nodes promoted", "all amounts < 2^128, opaque address/denom strings", "decomposed through the predicate 'claimable' (positive amount that fits 64 bits, non-empty sender): L2 records only claimable withdrawals/refunds; L1 accepts only refundable deposits; L1 finalizes every claimable withdrawal of an honest, final output with a funded escrow"],
+                outside=["trees above the bound", "the off-chain executor that builds the tree", "wide unsigned comparisons are an uninterpreted total order (consistency of the order is what the code relies on)"],
+                assumptions=COMMON_ASSUME + ["sha3 uninterpreted"]),
     "C05": dict(runs=[oph("^Harness_C05_|^Harness_C11_ProposeStep|^Harness_C03_FinalizeStep")],
                 bounds=["every int64 duration, every block/proposal time in the protobuf Timestamp range", "frame harnesses: iterated stores 1 entry quick / 2 thorough"], outside=["times outside years 1..9999"], assumptions=COMMON_ASSUME + ["block time is non-decreasing"]),
     "C11": dict(runs=[oph("^Harness_C11_")],
                 bounds=["closed-world OutputProposals store: at most 2 (quick) / 3 (thorough) outputs in the pre-state, over all bridges", "delete loop unwinding 8"],
                 outside=["logs longer than the slot bound (the step argument is per operation)"], assumptions=COMMON_ASSUME + ["block time is non-decreasing and not before stored proposal times"]),
-    "C12": dict(runs=[oph("^Harness_C12_L1_")],
-                bounds=["every one of the 8 permissioned L1 messages, all fields symbolic, arbitrary pre-state"], outside=[], assumptions=COMMON_ASSUME),
+    "C12": dict(runs=[oph("^Harness_C12_L1_"), opc("^Harness_C12_L2_")],
+                bounds=["every one of the 8 permissioned L1 messages and the 8 permissioned L2 messages, all fields symbolic, arbitrary pre-state", "ExecuteMessages: 1..2 inner (stub) messages with arbitrary signer sets of size 0..2", "at most 2 bridge executors"],
+                outside=["the oracle-update message's executor check is asserted in C15"], assumptions=COMMON_ASSUME + ["GetMsgV1Signers and the message router are deterministic stubs (arbitrary per message)"]),
     "C13": dict(runs=[opc("^Harness_C13_")],
                 bounds=["closed-world Validators / ValidatorsByConsAddr / LastValidatorPowers: at most 2 (quick) / 3 (thorough) entries in the pre-state", "one EndBlock (or one add/remove/param message) from an arbitrary mid-block state satisfying the index invariant"],
                 outside=["more validators than the slot bound", "CometBFT's rule against emptying the validator set (not named by the property)"],
